@@ -5,6 +5,7 @@ import (
 	"strings"
 
 	"github.com/vedadiyan/genql"
+	"github.com/vedadiyan/genql/vrt"
 	"verif/harness/core"
 	"verif/harness/gq"
 )
@@ -17,6 +18,7 @@ import (
 // several initial maps; a successor is obtained by replaying the shortest path on a fresh map.
 
 type c20op struct {
+	sub bool // the write happens inside a row-scoped subquery
 	set bool
 	key string
 	val string // SQL text of the value ("1", "a" = column, "'x'")
@@ -30,6 +32,7 @@ var c20Ops = []c20op{
 	{set: false, key: "K2"},
 	{set: true, key: "k1", val: "GETVAR('K2')"}, // an immediate call nested in the value argument
 	{set: true, key: "k1", val: "'1'"},          // a string that prints like the number 1
+	{sub: true, key: "k1", val: "7"},            // a scalar subquery that writes: (SELECT SETVAR('k1', 7), 1 AS one FROM dual)
 }
 
 type c20query struct {
@@ -107,7 +110,9 @@ func (p *c20) sql(q *c20query) string {
 	var items []string
 	for i, oi := range q.ops {
 		o := c20Ops[oi]
-		if o.set {
+		if o.sub {
+			items = append(items, fmt.Sprintf("(SELECT SETVAR('%s', %s), 1 AS one FROM dual) AS s%d", o.key, o.val, i))
+		} else if o.set {
 			items = append(items, fmt.Sprintf("SETVAR('%s', %s)", o.key, o.val))
 		} else {
 			items = append(items, fmt.Sprintf("GETVAR('%s') AS g%d", o.key, i))
@@ -136,6 +141,11 @@ func (p *c20) model(q *c20query, vars map[string]any) []string {
 		o := map[string]any{}
 		for i, oi := range q.ops {
 			op := c20Ops[oi]
+			if op.sub {
+				vars[op.key] = 7.0
+				o[fmt.Sprintf("s%d", i)] = map[string]any{"one": 1.0}
+				continue
+			}
 			if op.set {
 				var v any
 				switch op.val {
@@ -257,12 +267,82 @@ func (p *c20) RunCase(i int) *core.CaseResult {
 		frontier = next
 	}
 	r.States = int64(len(seen))
+	p.reExec(r, i)
 	return r
+}
+
+// reExec: "a later query given the same map observes those values" also holds for a Query object
+// that is executed again after another query (or the caller) has written the shared map.
+func (p *c20) reExec(r *core.CaseResult, i int) {
+	reads := false
+	for _, oi := range p.lists[i] {
+		if !c20Ops[oi].set && !c20Ops[oi].sub {
+			reads = true
+		}
+	}
+	if !reads {
+		return
+	}
+	writers := []c20query{{ops: []int{0}, table: 1}, {ops: []int{2, 1}, table: 2}, {ops: []int{6}, table: 1}}
+	for t := 1; t < len(p.tables); t++ {
+		for wi := range writers {
+			first := c20query{ops: p.lists[i], table: t}
+			impl, mod := map[string]any{"K2": "seed"}, map[string]any{"K2": "seed"}
+			var got1, got2 []string
+			var fail string
+			vrt.Run(gq.Seq, nil, func() {
+				defer func() {
+					if rec := recover(); rec != nil {
+						fail = fmt.Sprint(rec)
+					}
+				}()
+				q, err := genql.New(map[string]any{"t": gq.Clone(p.tables[t])}, p.sql(&first), genql.WithVars(impl))
+				if err != nil {
+					fail = err.Error()
+					return
+				}
+				rows, err := q.Exec()
+				if err != nil {
+					fail = err.Error()
+					return
+				}
+				got1 = gq.RenderRows(rows)
+				w, err := genql.New(map[string]any{"t": gq.Clone(p.tables[writers[wi].table])}, p.sql(&writers[wi]), genql.WithVars(impl))
+				if err == nil {
+					_, err = w.Exec()
+				}
+				if err != nil {
+					fail = err.Error()
+					return
+				}
+				impl["k1"] = "caller" // and a write by the caller itself
+				rows, err = q.Exec()
+				if err != nil {
+					fail = err.Error()
+					return
+				}
+				got2 = gq.RenderRows(rows)
+			})
+			r.Execs += 3
+			want1 := p.model(&first, mod)
+			p.model(&writers[wi], mod)
+			mod["k1"] = "caller"
+			want2 := p.model(&first, mod)
+			cs := map[string]any{"query": p.sql(&first), "table": p.tables[t], "writer": p.sql(&writers[wi])}
+			if fail != "" {
+				r.Fail("C20|re-exec|failed", fmt.Sprintf("%s: %s", p.sql(&first), fail), cs)
+				continue
+			}
+			if !gq.SameSeq(got1, want1) || !gq.SameSeq(got2, want2) || gq.Render(impl) != gq.Render(mod) {
+				r.Fail("C20|re-exec|stale", fmt.Sprintf("%s executed, then %s and a write by the caller, then the first Query executed again: rows %v then %v (map %s); register model %v then %v (map %s)", p.sql(&first), p.sql(&writers[wi]), got1, got2, gq.Render(impl), want1, want2, gq.Render(mod)), cs)
+			}
+		}
+	}
 }
 
 func (p *c20) Meta() core.Meta {
 	return core.Meta{
-		Rule:        "explicit-state search over the shared variable map: one case per first select list (every sequence of 1..3 operations over {SETVAR(k1,1), SETVAR(k1,a), SETVAR(K2,'x'), GETVAR(k1), GETVAR(K2), SETVAR(k1,GETVAR(K2)), SETVAR(k1,'1')}) run on 4 tables (0-3 rows) with/without WHERE from 3 initial maps; every distinct reached map is expanded breadth-first by every follow-up query (sequences of <= 2 operations x tables x WHERE) to depth 2 (thorough 3); a successor is the shortest path replayed on a fresh map plus one query; every step is compared with a sequential register model (rows, absence of SETVAR columns, caller's map). non-trivial = the first query ran on a non-empty table and left a non-empty map",
+		Rule:        "explicit-state search over the shared variable map: one case per first select list (every sequence of 1..3 operations over {SETVAR(k1,1), SETVAR(k1,a), SETVAR(K2,'x'), GETVAR(k1), GETVAR(K2), SETVAR(k1,GETVAR(K2)), SETVAR(k1,'1'), (SELECT SETVAR(k1,7), 1 AS one FROM dual)}) run on 4 tables (0-3 rows) with/without WHERE from 3 initial maps; every distinct reached map is expanded breadth-first by every follow-up query (sequences of <= 2 operations x tables x WHERE) to depth 2 (thorough 3); a successor is the shortest path replayed on a fresh map plus one query; every step is compared with a sequential register model (rows, absence of SETVAR columns, caller's map); every first query that reads is also executed, followed by another query and a write by the caller on the same map, and then executed again as the same Query object. non-trivial = the first query ran on a non-empty table and left a non-empty map",
 		Assumptions: []string{"evaluation order = rows in source order, select-list items left to right (the property's statement)", "values stored are numbers and strings; keys are string literals"},
 		Bounds:      map[string]any{"first_lists": len(p.lists), "followup_queries": len(p.queries), "depth": p.depth},
 		Exhaustive:  true,
